@@ -1792,8 +1792,12 @@ def make_stub_modules(I):
     def q_get(I_, args, kw):
         qq = args[0].attrs["_queue"]
         if not qq:
-            raise Unsupported("get_nowait on empty queue (QueueEmpty)")
+            raise PyRaise(Instance_of(q.ns["QueueEmpty"]))
         return qq.pop(0)
+    qe = ClassObj("QueueEmpty", [B["Exception"]], {}, q, "asyncio.QueueEmpty")
+    qe.is_exc = True
+    q.ns["QueueEmpty"] = qe
+    m.ns["QueueEmpty"] = qe
     for nm, fnc in (("__init__", q_init), ("qsize", q_qsize), ("put_nowait", q_put), ("get_nowait", q_get)):
         f = NativeFn("Queue." + nm, fnc); f.is_method = True
         Q.ns[nm] = f
@@ -1814,6 +1818,12 @@ def make_stub_modules(I):
     m.ns["random"] = NativeFn("random.random", rnd)
     m.ns["seed"] = NativeFn("random.seed", lambda I_, a, k: None)
     return S
+
+
+def Instance_of(cls, *args):
+    inst = Instance(cls)
+    inst.attrs["args"] = tuple(args)
+    return inst
 
 
 def _unmodelled(name):
